@@ -649,35 +649,79 @@ def _r3(ctx):
     _loop_sites(ctx, "cvode/sparse", JAC, sp, "Jac", "cols", r"colvals\s*\[\s*\x00(\d+)\x00\s*\]")
     _loop_sites(ctx, "cvode/sparse", JAC, sp, "Jac", "vals", r"data\s*\[\s*\x00(\d+)\x00\s*\]")
     _loop_sites(ctx, "cvode/cusparse", JAC, cu, "JacKernel", "vals", r"data\s*\[\s*jistart\s*\+\s*\x00(\d+)\x00\s*\]")
-    # cusparse InitJac: initialiser lists are the whole rows / cols sequences
-    items = J.propagate_sets(J.flatten(ctx.tree, JAC, cu))
+    # cusparse InitJac: the initialiser list of each array is the whole rows / cols sequence -- looked up by ROLE: what stands between the
+    # braces of `int rowptrs[..] = { .. };` / `int colvals[..] = { .. };`, as one `| join(", ")` output or as a loop printing every
+    # element with a separator between two of them
+    from ..cskel import match_brace
+    items = J.canon_items(J.propagate_sets(J.flatten(ctx.tree, JAC, cu)))
     sk = Skel(items)
-    outs = [it for it, off in sk.items_in("InitJac") if it[0] == "out"]
-    got = {}
-    for o in outs:
-        base, fs = J.unfilter(o[1])
-        p = J.path(base)
-        names = [f[0] for f in fs]
-        if p in ("ode.jac.rows", "ode.jac.cols"):
+    fs_ = sk.func("InitJac")
+    if not fs_:
+        ctx.missing("R3", "cvode/cusparse:InitJac", (JAC, 0), "function InitJac not found in the cusparse slice")
+        return
+    fn_ = fs_[0]
+    placed = [(it, off) for it, off in sk.items_in("InitJac") if it[0] in ("out", "for", "if")]
+    nested = {id(x) for it, _ in placed if it[0] in ("for", "if") for x, _ in J.walk_items(it[3] if it[0] == "for" else it[2] + it[3])}
+    idx0 = ("attr", ("name", "loop"), "index0")
+    for p, arr in (("ode.jac.rows", "rowptrs"), ("ode.jac.cols", "colvals")):
+        key = f"cvode/cusparse:InitJac:{p}"
+        FIELD = ("attr", ("attr", ("name", "ode"), "jac"), p.split(".")[-1])
+        md = re.search(r"\bint\s+" + arr + r"\s*\[[^\]]*\]\s*=\s*\{", sk.clean[fn_.start:fn_.end])
+        if not md:
+            ctx.missing("R3", key, (JAC, 0), f"InitJac does not declare `int {arr}[..] = {{ .. }}`")
+            continue
+        lo = fn_.start + md.end() - 1
+        hi = match_brace(sk.clean, lo)
+        inside = [it for it, off in placed if lo <= off < hi and id(it) not in nested]
+        if len(inside) != 1:
+            (ctx.unrec if inside else ctx.missing)("R3", key, (JAC, 0), f"the initialiser of {arr} holds {len(inside)} template items, expected one output or one loop")
+            continue
+        it = inside[0]
+        if it[0] == "out":
+            base, fs = J.unfilter(it[1])
+            names = [f[0] for f in fs]
             # `join` applies str() to every element itself: a preceding map('string') is optional
             if fs and fs[0][0] == "map" and fs[0][1] == (("const", "string"),) and not fs[0][2]:
                 names = names[1:]
-            good = names[:1] == ["join"] and all(n == "stmwrap" for n in names[1:])
-            got[p] = (good, o)
-    for p, arr in (("ode.jac.rows", "rowptrs"), ("ode.jac.cols", "colvals")):
-        if p not in got:
-            ctx.missing("R3", f"cvode/cusparse:InitJac:{p}", (JAC, 0), f"InitJac does not output {p}")
+            if base != FIELD and J.path(base) in ("ode.jac.rows", "ode.jac.cols", "ode.jac.vals", "ode.jac.rhs"):
+                ctx.bad("R3", "cvode/cusparse:InitJac:binding", (JAC, it[2]), f"{arr} is initialised from {J.show(base)}, not from {p}", expected=p, found=J.show(base))
+                continue
+            good = base == FIELD and names[:1] == ["join"] and all(n == "stmwrap" for n in names[1:])
+            ctx.check(good, "R3", key, (JAC, it[2]), f"{arr} initialiser is the complete {p} sequence joined by ', '", found=J.show(it[1]))
+        elif it[0] == "for":
+            root = it[2]
+            while root[0] in ("filter", "item"):
+                root = root[2] if root[0] == "filter" else root[1]
+            if (it[2] != FIELD or it[7] is not None) and J.path(root) in ("ode.jac.rows", "ode.jac.cols", "ode.jac.vals", "ode.jac.rhs"):
+                (ctx.bad)("R3", "cvode/cusparse:InitJac:binding" if J.path(root) != p else key, (JAC, it[5]),
+                          f"{arr} is initialised by a loop over {J.show(it[2])}, not over the complete {p}", expected=p, found=J.show(it[2]))
+                continue
+            body = list(J.walk_items(it[3]))
+            outs = [(x, st) for x, st in body if x[0] == "out"]
+            elem_ok = it[2] == FIELD and it[7] is None and outs and not outs[0][1] and J.unfilter(outs[0][0][1])[0] == it[1] \
+                and all(f[0] in ("string", "int", "stmwrap") for f in J.unfilter(outs[0][0][1])[1])
+            # the separator: printed between two elements, i.e. for every element but the last (or but the first)
+            last = ("attr", ("name", "loop"), "last")
+            first = ("attr", ("name", "loop"), "first")
+            sep_ok = False
+            rest = outs[1:]
+            seps = [x for x, st in body if x[0] == "text" and "," in x[1]]
+            if len(rest) == 1 and not seps and rest[0][0][1][0] == "cond":
+                c, a_, b_ = rest[0][0][1][1:4]
+                t, pol = J.canon_test(c)
+                b_ = b_ if b_ is not None else ("const", "")
+                with_sep, without = (a_, b_) if not pol else (b_, a_)       # value when `t` is false / true
+                sep_ok = t == last and with_sep[0] == "const" and "," in str(with_sep[1]) and without[0] == "const" and "," not in str(without[1])
+            elif not rest and len(seps) == 1:
+                st = next(st_ for x, st_ in body if x is seps[0])
+                gs = [J.canon_test(g[1], g[0] == "if+") for g in st if g[0] in ("if+", "if-")]
+                sep_ok = len(gs) == 1 and gs[0] in ((last, False), (first, False))
+            if elem_ok and sep_ok:
+                ctx.ok("R3", key, (JAC, it[5]), f"{arr} initialiser prints every element of {p}, separated by ', '")
+            else:
+                ctx.unrec("R3", key, (JAC, it[5]), f"the loop that prints the initialiser of {arr} is not understood (element / separator)")
         else:
-            good, o = got[p]
-            ctx.check(good, "R3", f"cvode/cusparse:InitJac:{p}", (JAC, o[2]), f"{arr} initialiser is the complete {p} sequence joined by ', '",
-                      found=J.show(o[1]))
-    body = sk.plain(sk.func("InitJac")[0].body) if sk.func("InitJac") else ""
-    mm = re.search(r"int\s+rowptrs\s*\[[^\]]*\]\s*=\s*\{\s*__HOLE__\s*\}\s*;.*int\s+colvals\s*\[[^\]]*\]\s*=\s*\{\s*__HOLE__\s*\}\s*;", body, re.S)
-    ctx.check(bool(mm), "R3", "cvode/cusparse:InitJac:order", (JAC, 0), "rowptrs is initialised from the first output and colvals from the second")
-    if mm:
-        order = [J.path(J.unfilter(o[1])[0]) for o in outs if J.path(J.unfilter(o[1])[0]) in ("ode.jac.rows", "ode.jac.cols")]
-        ctx.check(order == ["ode.jac.rows", "ode.jac.cols"], "R3", "cvode/cusparse:InitJac:binding", (JAC, 0),
-                  "rowptrs <- ode.jac.rows, colvals <- ode.jac.cols", found=str(order))
+            ctx.unrec("R3", key, (JAC, it[4]), f"the initialiser of {arr} is conditional")
 
 
 # ------------------------------------------------------------------ R4
@@ -843,6 +887,10 @@ def _split_args(code, i):
 
 T = FILE
 MUTANTS = [
+    {"name": "initjac-colvals-from-rows", "file": JAC, "old": "        {{ ode.jac.cols | map('string') | join(\", \") | stmwrap(80, 8) }}\n",
+     "new": "        {{ ode.jac.rows | map('string') | join(\", \") | stmwrap(80, 8) }}\n", "rules": ["R3"]},
+    {"name": "initjac-colvals-loop-over-a-slice", "file": JAC, "old": "        {{ ode.jac.cols | map('string') | join(\", \") | stmwrap(80, 8) }}\n",
+     "new": "        {% for c in ode.jac.cols[1:] %}{{ c }}{{ \", \" if not loop.last else \"\" }}{% endfor %}\n", "rules": ["R3"]},
     {"name": "rowptr-appended-after-each-row-but-starts-empty", "file": T, "old": '        nnz = 0\n\n        for row in range(n_eqns):\n            spjacrptr.append(nnz)\n            for col in range(n_eqns):\n                elem = jacrhs[row * n_eqns + col]\n                if elem != "0.0":\n                    spjaccval.append(col)\n                    spjacdata.append(f"{elem}")\n                    nnz += 1\n        spjacrptr.append(nnz)\n', "new": '        nnz = 0\n\n        for row in range(n_eqns):\n            for col in range(n_eqns):\n                elem = jacrhs[row * n_eqns + col]\n                if elem != "0.0":\n                    spjaccval.append(col)\n                    spjacdata.append(f"{elem}")\n                    nnz += 1\n            spjacrptr.append(nnz)\n', "rules": ["R1"]},
     {"name": "sparse-colvals-index-loop-shifted", "file": JAC, "old": "    {% for col in ode.jac.cols -%}\n        colvals[{{ loop.index0 }}] = {{ col }};\n    {% endfor %}\n",
      "new": "    {% for i in range(ode.jac.cols | length) -%}\n        colvals[{{ i }}] = {{ ode.jac.cols[i - 1] }};\n    {% endfor %}\n", "rules": ["R3"]},
@@ -876,6 +924,8 @@ MUTANTS = [
     {"name": "nequations-macro", "file": MACROS, "old": "#define NEQUATIONS (NSPECIES + THERMAL)", "new": "#define NEQUATIONS (NSPECIES)", "rules": ["R4"]},
 ]
 BENIGN = [
+    {"name": "initjac-colvals-printed-by-a-loop-with-separator", "file": JAC, "old": "        {{ ode.jac.cols | map('string') | join(\", \") | stmwrap(80, 8) }}\n",
+     "new": "        {% for c in ode.jac.cols %}{{ c }}{{ \", \" if not loop.last else \"\" }}{% endfor %}\n"},
     {"name": "rowptr-starts-at-zero-appended-after-each-row", "edits": [
         {"file": T, "old": '        spjacrptr = []\n', "new": '        spjacrptr = [0]\n'},
         {"file": T, "old": '        nnz = 0\n\n        for row in range(n_eqns):\n            spjacrptr.append(nnz)\n            for col in range(n_eqns):\n                elem = jacrhs[row * n_eqns + col]\n                if elem != "0.0":\n                    spjaccval.append(col)\n                    spjacdata.append(f"{elem}")\n                    nnz += 1\n        spjacrptr.append(nnz)\n', "new": '        nnz = 0\n\n        for row in range(n_eqns):\n            for col in range(n_eqns):\n                elem = jacrhs[row * n_eqns + col]\n                if elem != "0.0":\n                    spjaccval.append(col)\n                    spjacdata.append(f"{elem}")\n                    nnz += 1\n            spjacrptr.append(nnz)\n'}]},
